@@ -107,7 +107,10 @@ def strat_sym(tier):
         "spin": st.floats(-7, 7),
         "pts": _pts(),
         "kgap": gen.logu(20.0, 500.0),
-        "rel": st.sampled_from(["spin", "reverse", "period"]),
+        "rel": st.sampled_from(["spin", "reverse", "period", "integer_angles", "integer_angles"]),
+        # Euler angles given as integers (python ints, numpy ints, in a tuple, list or integer array), also out of range
+        "irot": st.tuples(st.integers(-9, 9), st.integers(-9, 9), st.integers(-9, 9)).map(list),
+        "iform": st.sampled_from(["tuple", "list", "int_array", "np_int"]),
     })
 
 
@@ -138,13 +141,22 @@ def run_sym(case):
     _, rmax = _axisym(case, (al, be, ga), (0, 0, 1))
     center = (0.3 * unit, -0.2 * unit, rmax + case["kgap"] / k)
     s1, _ = _axisym(case, (al, be, ga), center)
-    if case["rel"] == "spin":
+    if case["rel"] == "integer_angles":
+        # the same orientation written with integer-typed and with float-typed angles
+        ir = case["irot"]
+        form = case["iform"]
+        rot_i = {"tuple": tuple(ir), "list": list(ir), "int_array": np.array(ir, dtype=np.int64), "np_int": tuple(np.int32(v) for v in ir)}[form]
+        s1, _ = _axisym(case, tuple(float(v) for v in ir), center)
+        s1i, _ = _axisym(case, (0.0, 0.0, 0.0), center)
+        s1i.rotation = rot_i
+        rot2 = None
+    elif case["rel"] == "spin":
         rot2 = (al + case["spin"], be, ga)
     elif case["rel"] == "reverse":
         rot2 = (al, math.pi - be, ga + math.pi)
     else:
         rot2 = (al, be + 2 * math.pi, ga - 2 * math.pi)
-    s2, _ = _axisym(case, rot2, center)
+    s2 = s1i if rot2 is None else _axisym(case, rot2, center)[0]
     kw = gen.optics_kwargs(o)
     labels = [case["kind"], case["rel"]]
     res = []
